@@ -921,36 +921,34 @@ func splitCount(value, sep, count any) (any, error) {
 	}
 
 	if len(p) == 0 {
-		r := make([]any, n+1)
+		r := make([]any, 0, min(n, len(s))+1)
 
-		i := 0
-		for i < n {
+		for i := 0; i < n && len(s) > 0; i++ {
 			_, l := utf8.DecodeRuneInString(s)
-			r[i] = s[:l]
+			r = append(r, s[:l])
 			s = s[l:]
-			i++
 		}
 
-		r[i] = s
-		return r[:i+1], nil
+		if len(s) > 0 {
+			r = append(r, s)
+		}
+
+		return r, nil
 	}
 
-	r := make([]any, n+1)
+	r := make([]any, 0, min(n, strings.Count(s, p))+1)
 
-	i := 0
-	for i < n {
+	for i := 0; i < n; i++ {
 		j := strings.Index(s, p)
 		if j < 0 {
 			break
 		}
 
-		r[i] = s[:j]
+		r = append(r, s[:j])
 		s = s[j+len(p):]
-		i++
 	}
 
-	r[i] = s
-	return r[:i+1], nil
+	return append(r, s), nil
 }
 
 func startsWith(value, prefix any) (any, error) {
